@@ -77,6 +77,19 @@ def main():
             n1, n2 = o1.replace(tdir, "<tmp>"), o2.replace(tdir, "<tmp>")
             differ = n1 != n2
             meta["demo_head"], meta["demo_mutant"] = n1[-3000:], n2[-3000:]
+        elif demo and (os.path.exists(os.path.join(demo, "compare.sh")) or os.path.exists(os.path.join(src, "check_suppress.sh"))):
+            shutil.copytree(src, os.path.join(tdir, "m"), dirs_exist_ok=True)
+            if os.path.exists(os.path.join(demo, "compare.sh")):
+                cmdt = "sh demo/compare.sh {bin} $PWD/demo 2>&1; echo exit=$?"
+                ran.append("sh demo/compare.sh <binary> demo  (HEAD binary vs. mutated binary)")
+            else:
+                cmdt = "sh check_suppress.sh {bin} demo 2>&1; echo exit=$?"
+                ran.append("sh check_suppress.sh <binary> demo  (HEAD binary vs. mutated binary)")
+            r1, o1 = sh(cmdt.format(bin="/tmp/sw/gg_head"), cwd=os.path.join(tdir, "m"))
+            r2, o2 = sh(cmdt.format(bin=f"/tmp/sw/gg_{name}"), cwd=os.path.join(tdir, "m"))
+            n1, n2 = o1.replace(tdir, "<tmp>"), o2.replace(tdir, "<tmp>")
+            differ = n1 != n2
+            meta["demo_head"], meta["demo_mutant"] = n1[-3000:], n2[-3000:]
         elif demo and (os.path.exists(os.path.join(demo, "run.sh")) or os.path.exists(os.path.join(src, "probe.sh"))):
             shutil.copytree(src, os.path.join(tdir, "m"), dirs_exist_ok=True)
             if os.path.exists(os.path.join(demo, "run.sh")):
